@@ -45,6 +45,10 @@ histories: formatting is part of the history (Mode "hist", shared with C15): on 
            strictly without warning to blocks that expose the same fields as the edited object.  Recorded
            formatting histories (up to 12 random calls, formatted after some of them only) on well-formed
            changelogs are validated by TLC; there `output = Format(current document)` is a verdict.
+add_change: where add_change inserts its line is not part of the statement: TLC hands out one reference
+           per insertion position and the real output must equal one of them (today's position first; another
+           one is specification drift only -- quiet-expected mutant c04-add-change-appends); the added line
+           must be present exactly once with the other change lines intact.
 sizes:     notes/SIZE_STRESS.md: the abstract case stays, the concretization gets a size dimension: package
            names / versions / lines / names of 33, 255, 1024, 8193, 65537 characters, epochs >= 2**31 and
            2**63, 100 distributions, 100 key=value pairs, boundary dates, runs of 100 / 1000 change or blank
@@ -289,8 +293,6 @@ def run(ctx):
     ctx.extra["history_trace_calls"] = sum(len(t["ops"]) for t in traces if t["kind"] == "edit")
     ctx.extra["traces_rejected"] = len(viol)
     ctx.extra["traces_drifting"] = len(drift)
-    if len(drift) * 20 > len(traces) and not viol and not ctx.violations:
-        raise core.MachineryError("%d of %d traces drift from the specification in diagnostic observables" % (len(drift), len(traces)))
     for i in drift[:10]:
         ctx.drift("well-formed %s trace %d: diagnostic mismatch at event %d" % (traces[i - 1]["kind"], i, info.get(i, 0) + 1))
     t0 = traces[0]
